@@ -29,7 +29,7 @@ fn shapes<T: Real>(fft: &Arc<dyn Fft<T>>, tag: &str, n: usize, rep: &mut Report)
             let mut b = zeros::<T>(d);
             fft.process(&mut b);
         });
-        judge(rep, tag, "process", d, d, usize::MAX, multiple(d), r.is_err());
+        judge(rep, tag, "process", d, d, usize::MAX, multiple(d), &r);
         for entry in 0..3usize {
             let adv = advs[entry];
             let mut scr: Vec<usize> = vec![0, adv, adv + 1];
@@ -61,14 +61,15 @@ fn shapes<T: Real>(fft: &Arc<dyn Fft<T>>, tag: &str, n: usize, rep: &mut Report)
                         }
                     });
                     let name = ["process_with_scratch", "process_outofplace_with_scratch", "process_immutable_with_scratch"][entry];
-                    judge(rep, tag, name, d, o, if s == adv { 0 } else if s > adv { 1 } else if s == 0 { 3 } else { 2 }, well, r.is_err());
+                    judge(rep, tag, name, d, o, if s == adv { 0 } else if s > adv { 1 } else if s == 0 { 3 } else { 2 }, well, &r);
                 }
             }
         }
     }
 }
 
-fn judge(rep: &mut Report, tag: &str, entry: &str, d: usize, o: usize, sclass: usize, well: bool, panicked: bool) {
+fn judge(rep: &mut Report, tag: &str, entry: &str, d: usize, o: usize, sclass: usize, well: bool, outcome: &Result<(), String>) {
+    let panicked = outcome.is_err();
     let sname = match sclass {
         0 => "scratch=adv",
         1 => "scratch=adv+1",
@@ -85,6 +86,10 @@ fn judge(rep: &mut Report, tag: &str, entry: &str, d: usize, o: usize, sclass: u
         rep.count("ill-shaped");
         if !panicked {
             rep.fail(format!("illshaped-returned {} {} data={} out={} {}", tag, entry, d, o, sname), "an ill-shaped call returned normally".into());
+        } else if let Err(m) = outcome {
+            if !is_validation_panic(m) {
+                rep.fail(format!("illshaped-kernel-panic {} {} data={} out={} {}", tag, entry, d, o, sname), format!("the panic did not come from call-shape validation: {}", m.chars().take(140).collect::<String>()));
+            }
         }
     }
 }
